@@ -11,6 +11,7 @@ import OG.C20.SkipIdx
 import OG.C20.TimeCluster
 import OG.C20.SkipText
 import OG.C20.Frag
+import OG.C20.SkipIp
 
 namespace OG.C20
 
@@ -204,6 +205,28 @@ def runRel (wsp : Nat → Bool) (rel : Relation) (allCols : List Nat) (c : BCond
       | some (some rs) => showRanges rs
       | _ => "err panic"
 
+partial def parseIpCond : List String → Option (IpCond × List String)
+  | "A" :: f :: op :: v :: rest => do
+    let f ← parseField f
+    let v ← hexBytes v
+    match op with
+    | "eq" => some (.bin .cmp (.var f) (.lit ⟨false, v⟩), rest)
+    | "in" => some (.bin .cmp (.var f) (.lit ⟨true, v⟩), rest)
+    | "neq" => some (.bin .cmpo (.var f) (.lit ⟨false, v⟩), rest)
+    | _ => none
+  | "P" :: rest => do
+    let (e, rest) ← parseIpCond rest
+    some (.paren e, rest)
+  | "&" :: rest => do
+    let (l, rest) ← parseIpCond rest
+    let (r, rest) ← parseIpCond rest
+    some (.bin .and l r, rest)
+  | "|" :: rest => do
+    let (l, rest) ← parseIpCond rest
+    let (r, rest) ← parseIpCond rest
+    some (.bin .or l r, rest)
+  | _ => none
+
 def stepSkip : List String → Option String
   | ["skip", rpf, minRows, ans, rgs] => do
     let rpf ← rpf.toNat?
@@ -280,6 +303,23 @@ def stepSkip : List String → Option String
     let k ← parseKind kind
     if !rest.isEmpty || rpf == 0 then none
     else some (runRel wsp [⟨k, k.stdName, List.range nIdx⟩] (List.range (nIdx + 1)) c segs (minMarks rpf minRows) rgs)
+  | "bloomip" :: rpf :: minRows :: rgs :: nIdx :: segs :: cond => do
+    -- IP bloom-filter index over the columns 0..nIdx-1, unindexed column x
+    let rpf ← rpf.toNat?
+    let minRows ← minRows.toNat?
+    let rgs ← parseRanges rgs
+    let nIdx ← nIdx.toNat?
+    let segs ← (segs.splitOn "|").mapM parseSeg
+    let (c, rest) ← parseIpCond cond
+    if !rest.isEmpty || rpf == 0 then none
+    else
+      let schema := (varsOf (toRPN c)).filter (· < nIdx)
+      if schema.isEmpty then some (showRanges rgs)
+      else if (convElems (fun n => schema.contains n) (toRPN c)).isNone then some "err create"
+      else
+        match skipScan (minMarks rpf minRows) (answerOf segs (ipMayBe posV3 schema c)) rgs with
+        | some rs => some (showRanges rs)
+        | none => some "err panic"
   | "text" :: rpf :: minRows :: rgs :: nIdx :: segs :: cond => do
     -- text index over the columns 0..nIdx-1 (split set CONTENT_SPLITTER), unindexed column x
     let rpf ← rpf.toNat?
